@@ -172,7 +172,12 @@ class World:
         self.inflight = []        # per O->H message: ("refs", [k..], disc) | ("ack",)
         self.inflight_ho = []     # per H->O message: ("decref",) | ("home", pid, k, iscall)
         self.lost = False
-        self.freed_in_use = set() # clids whose import-table entry was deleted by a decref answer while its tracker was in use
+        # clid -> "d16" | "other": a decref answer deleted the import-table entry of a tracker that is in use.
+        #   "d16"   = the entry belonged to a DIFFERENT (newer) tracker than the answered one, whose own count was 0
+        #             (the listed finding: deletion by clid)
+        #   "other" = anything else, e.g. the answered tracker itself still counts references / has a live proxy
+        self.freed_in_use = {}
+        self._observe_free(self.H)
         self.disc_count = {}      # object key -> number of references sent in calls the receiver discards
         self.clid_obj = {}        # every clid ever seen in O's export table -> object key
         self.max_clid = 0
@@ -182,6 +187,27 @@ class World:
         del p0
         self.problems = []        # direct-oracle findings: (sig, text)
         self.audit()
+
+    def _observe_free(self, H):
+        """instance-level observer around Broker.freeYourReferenceTracker (looked up on the instance when
+        freeYourReference registers the callback): which tracker is answered, whose table entry disappears"""
+        orig = H.freeYourReferenceTracker
+        world = self
+
+        def in_use(t):
+            return t.received_count > 0 or (t.ref is not None and t.ref() is not None)
+
+        def observed(res, tracker):
+            c = tracker.clid
+            before = H.yourReferenceByCLID.get(c)
+            own_count = tracker.received_count
+            r = orig(res, tracker)
+            if before is not None and H.yourReferenceByCLID.get(c) is not before and in_use(before) and not H.disconnected:
+                kind = "d16" if (before is not tracker and own_count == 0) else "other"
+                if world.freed_in_use.get(c) != "other":
+                    world.freed_in_use[c] = kind
+            return r
+        H.freeYourReferenceTracker = observed
 
     # ---- helpers
     def turn(self):
@@ -247,13 +273,7 @@ class World:
             return [], None
         info = self.inflight.pop(0)
         data = self.tO.q.pop(0)
-        before = dict(self.H.yourReferenceByCLID) if info[0] == "ack" else {}
         self.H.dataReceived(data)          # unslicing (getRef) happens here, before the eventual queue runs
-        for c, t in before.items():
-            # D16's root event: the answer to a decref removed the import-table entry of a tracker that is in use
-            if self.H.yourReferenceByCLID.get(c) is not t and (t.received_count > 0 or (t.ref is not None and t.ref() is not None)):
-                self.freed_in_use.add(c)
-        del before
         nops = len(info[1]) if info[0] == "refs" else 1
         ops = [("RecvOH",)] * nops
         self.turn()
@@ -284,10 +304,16 @@ class World:
                     for p, k in zip(proxies, ks):
                         holders = [q for q, kk in self.obj_of.items() if kk == k and q in self.held]
                         if holders and not any(self.held[q] is p for q in holders):
-                            d16 = any(self.held[q].tracker.clid in self.freed_in_use for q in holders)
-                            self.problems.append(("oracle/different-proxy-while-held" + ("/after-decref-answer-freed-tracker-in-use" if d16 else ""),
+                            kinds = set(self.freed_in_use.get(self.held[q].tracker.clid) for q in holders)
+                            suffix = ("/tracker-with-live-proxy-freed" if "other" in kinds else
+                                      "/after-decref-answer-freed-tracker-in-use" if "d16" in kinds else "")
+                            self.problems.append(("oracle/different-proxy-while-held" + suffix,
                                                   "object %d was delivered as a new proxy although proxy %r for it is still "
-                                                  "held by the receiver" % (k, holders)))
+                                                  "held by the receiver%s" % (k, holders, {
+                                                      "/tracker-with-live-proxy-freed": " (a decref answer removed the import-table entry of "
+                                                      "a tracker that still counts references / has a live proxy)",
+                                                      "/after-decref-answer-freed-tracker-in-use": " (the answer to an earlier decref, whose own "
+                                                      "tracker had count 0, removed by clid the entry of a newer tracker)", "": ""}[suffix])))
                         for q, hp in self.held.items():
                             if hp is p and self.obj_of[q] != k:
                                 self.problems.append(("oracle/proxy-shared-by-objects",
@@ -614,6 +640,7 @@ class Recorder:
 # signatures of the direct oracle, by property
 SIG_PROPERTY = {
     "oracle/different-proxy-while-held": "C08", "oracle/different-proxy-while-held/after-decref-answer-freed-tracker-in-use": "C08",
+    "oracle/different-proxy-while-held/tracker-with-live-proxy-freed": "C08",
     "oracle/proxy-shared-by-objects": "C08", "oracle/identity-lost": "C08",
     "oracle/home-not-original": "C08", "oracle/home-not-delivered": "C08", "oracle/call-misrouted": "C08",
     "oracle/not-delivered": "C08",
